@@ -251,7 +251,22 @@ func (e *reuseEngine) Generate(seed uint64, tier string, run int) (json.RawMessa
 				op = c.Ops[kernel.Pick(rg, prev)]
 				// ... or a variant of it in which exactly one argument differs: every argument that a
 				// cache key must contain is varied alone against an otherwise identical earlier call
-				switch rg.Intn(9) {
+				switch rg.Intn(10) {
+				case 9: // the same features in another order, a tag given twice with different values
+					// (the later one wins: order is part of the meaning only then)
+					fs := append([]FeatSpec(nil), op.Feats...)
+					if len(fs) < 2 || rg.Chance(0.5) {
+						t := kernel.Pick(rg, []string{"liga", "kern", "smcp", "calt"})
+						if len(fs) > 0 && rg.Chance(0.7) {
+							t = fs[rg.Intn(len(fs))].Tag
+						}
+						fs = append(fs, FeatSpec{Tag: t, Val: 0}, FeatSpec{Tag: t, Val: 1})
+					}
+					for i := len(fs) - 1; i > 0; i-- {
+						j := rg.Intn(i + 1)
+						fs[i], fs[j] = fs[j], fs[i]
+					}
+					op.Feats = fs
 				case 0:
 					op.F = f
 				case 1: // same number of features, other value or tag
